@@ -243,8 +243,22 @@ struct Pipeline {
             check_preamble_ref(mo, rf);
             compare_blocks(mo, rf);
         }
+        // C09: a preamble the library wrote must at least be readable by the library (the constructor reads header + preamble)
+        if (!vf.opened)
+            V("C09", "I25/preamble-unreadable(reader)", mo.name + ": " + vf.error_type + ": " + vf.error);
         if (vf.ended_clean) {
-            check_preamble_reader(mo, rpre);
+            check_preamble_reader(mo, rpre, "");
+            // ... and it stays what was read while the blocks are being read, and every block carries its own set
+            if (vf.has_pre_after) check_preamble_reader(mo, vf.pre_after, "/after-reading-blocks");
+            for (size_t i = 0; i < vf.blocks.size(); i++) {
+                const model::VBlock& b = vf.blocks[i];
+                if (b.bp_index >= rpre.m_block_parameters.size()) continue;
+                PCanon c = canon_params(rpre.m_block_parameters[b.bp_index]), g = canon_params(b.params);
+                std::string d = ref::first_diff(c.storage, g.storage);
+                if (d.empty() && c.has_cp != g.has_cp) d = "collection parameters present/absent";
+                if (d.empty() && c.has_cp) d = ref::first_diff(c.cp, g.cp);
+                if (!d.empty()) V("C09", "I25/parameters-attached-to-block(reader)", mo.name + " block " + std::to_string(i) + " (set " + std::to_string(b.bp_index) + "): " + d);
+            }
             compare_blocks_reader(mo, vf);
         }
     }
@@ -274,24 +288,24 @@ struct Pipeline {
         }
     }
 
-    void check_preamble_reader(model::MOutput& mo, CDNS::FilePreamble& rp) {
+    void check_preamble_reader(model::MOutput& mo, CDNS::FilePreamble& rp, const std::string& when) {
         const gen::Swarm& s = plan.sw;
-        if (rp.m_major_format_version != s.major || rp.m_minor_format_version != s.minor) V("C09", "I25/version(reader)", mo.name);
+        if (rp.m_major_format_version != s.major || rp.m_minor_format_version != s.minor) V("C09", "I25/version(reader)" + when, mo.name);
         bool hp = !!rp.m_private_version;
         if (hp != s.private_version || (hp && *rp.m_private_version != s.priv))
-            V("C09", "I25/private-version(reader)", mo.name + ": read back " + (hp ? std::to_string(*rp.m_private_version) : std::string("absent")) +
+            V("C09", "I25/private-version(reader)" + when, mo.name + ": read back " + (hp ? std::to_string(*rp.m_private_version) : std::string("absent")) +
                                                         ", configured " + (s.private_version ? std::to_string(s.priv) : std::string("absent")));
         if (rp.m_block_parameters.size() != mo.nsets_at_open)
-            V("C09", "I25/set-count(reader)", mo.name + ": read back " + std::to_string(rp.m_block_parameters.size()) + " sets");
+            V("C09", "I25/set-count(reader)" + when, mo.name + ": read back " + std::to_string(rp.m_block_parameters.size()) + " sets");
         for (size_t i = 0; i < rp.m_block_parameters.size() && i < M.params.size(); i++) {
             PCanon c = canon_params(M.params[i]), g = canon_params(rp.m_block_parameters[i]);
             std::string d = ref::first_diff(c.storage, g.storage);
-            if (!d.empty()) V("C09", "I25/storage-parameters(reader)", mo.name + " set " + std::to_string(i) + ": " + d);
+            if (!d.empty()) V("C09", "I25/storage-parameters(reader)" + when, mo.name + " set " + std::to_string(i) + ": " + d);
             if (c.has_cp != g.has_cp)
-                V("C09", "I25/collection-presence(reader)", mo.name + " set " + std::to_string(i) + ": collection parameters " + (c.has_cp ? "configured, read back absent" : "absent, read back present"));
+                V("C09", "I25/collection-presence(reader)" + when, mo.name + " set " + std::to_string(i) + ": collection parameters " + (c.has_cp ? "configured, read back absent" : "absent, read back present"));
             else if (c.has_cp) {
                 d = ref::first_diff(c.cp, g.cp);
-                if (!d.empty()) V("C09", "I25/collection-parameters(reader)", mo.name + " set " + std::to_string(i) + ": " + d);
+                if (!d.empty()) V("C09", "I25/collection-parameters(reader)" + when, mo.name + " set " + std::to_string(i) + ": " + d);
             }
         }
     }
